@@ -67,6 +67,8 @@ OPTIONS = {
     "symbol_skip_mem": ("bool", True, False, True),
     "enable_code_actions": ("bool", True, False, True),
 }
+# other accepted spellings of a value: pp_defs may be a list of names (defined, without a value)
+ALT_VALUES = {"pp_defs": [["FOO"], ["BAR", "FOO"]]}
 OTHER = ("hover_language", "zz9")
 OTHER2 = ("max_line_length", 72)
 
@@ -316,6 +318,13 @@ def enumerate_cases():
         if kind in ("list", "dict"):
             # the file names the option with an empty value: it still wins over the command line
             yield {"cli": {opt: v2}, "file": {opt: [] if kind == "list" else {}}, "cfg": names[k % 4]}
+    for opt, alts in ALT_VALUES.items():
+        for a in alts:
+            other = OTHER
+            yield {"cli": {}, "file": {opt: a}, "cfg": ".fortlsrc"}
+            yield {"cli": {opt: a}, "file": {other[0]: other[1]}, "cfg": ".fortls.json"}
+            yield {"cli": {opt: a}, "file": {}, "cfg": ["-c", "custom.json"], "fault": "missing-named"}  # no configuration file at all
+            yield {"cli": {opt: OPTIONS[opt][1]}, "file": {opt: a}, "cfg": ".fortls"}
     base = {"hover_language": "clilang", "max_line_length": 60, "pp_defs": {"FOO": "1"}, "notify_init": True, "pp_suffixes": [".F90", ".f90"]}
     for f in FAULTS:
         if f == "wrongtype":
@@ -336,6 +345,8 @@ def multi_case_st(draw):
         kind, v1, v2, _ = OPTIONS[o]
         cell = draw(st.sampled_from(["cli", "file", "both", "both"]))
         a, b = (v1, v2) if draw(st.booleans()) else (v2, v1)
+        if o in ALT_VALUES and draw(st.booleans()):
+            a, b = draw(st.sampled_from(ALT_VALUES[o])), draw(st.sampled_from(ALT_VALUES[o] + [b]))
         if cell in ("cli", "both"):
             cli[o] = a if kind != "bool" else True
         if cell in ("file", "both"):
